@@ -59,32 +59,66 @@ Proof.
   - rewrite <- (Qfloor_Z z) at 1. apply Qfloor_resp_le. exact H1.
 Qed.
 
-(* the nearest integer, and when the device's rounding is it *)
+(* the nearest integer (halves away from zero); the device's rounding and the emitter's are it, for ALL values *)
 Lemma rnear_nearest : forall q, Qabs (inject_Z (rnear q) - q) <= 1 # 2.
 Proof.
-  intro q. unfold rnear. pose proof (Qfloor_le (q + (1 # 2))) as H1. pose proof (Qlt_floor (q + (1 # 2))) as H2.
-  rewrite inject_Z_plus in H2. change (inject_Z 1) with 1 in H2.
-  apply Qabs_Qle_condition. split; lra.
+  intro q. unfold rnear. destruct (Qltb q 0).
+  - pose proof (Qfloor_le (- q + (1 # 2))) as H1. pose proof (Qlt_floor (- q + (1 # 2))) as H2.
+    rewrite inject_Z_plus in H2. change (inject_Z 1) with 1 in H2. rewrite inject_Z_opp.
+    apply Qabs_Qle_condition. split; lra.
+  - pose proof (Qfloor_le (q + (1 # 2))) as H1. pose proof (Qlt_floor (q + (1 # 2))) as H2.
+    rewrite inject_Z_plus in H2. change (inject_Z 1) with 1 in H2.
+    apply Qabs_Qle_condition. split; lra.
 Qed.
 
 Lemma rnear_inject : forall z, rnear (inject_Z z) = z.
-Proof. intro z. unfold rnear. apply floor_unique; lra. Qed.
-
-Lemma ctrunc_half_rnear : forall q, -(1 # 2) <= q -> ctrunc (q + (1 # 2)) = rnear q.
-Proof. intros q H. apply ctrunc_nonneg. lra. Qed.
-
-(* integer bounds with a non-negative maximum: the rounded value is itself within the bounds *)
-Lemma ctrunc_half_between : forall (m M : Z) x, (0 <= M)%Z -> inject_Z m <= x <= inject_Z M ->
-  (m <= ctrunc (x + (1 # 2)) <= M)%Z.
 Proof.
-  intros m M x HM [H1 H2]. split.
-  - destruct (Qlt_le_dec (x + (1 # 2)) 0) as [Hn|Hn].
-    + rewrite ctrunc_nonpos by lra. rewrite <- (Qceiling_Z m) at 1. apply Qceiling_resp_le. lra.
-    + rewrite ctrunc_nonneg by exact Hn. rewrite <- (Qfloor_Z m) at 1. apply Qfloor_resp_le. lra.
-  - apply Z.le_trans with (ctrunc (inject_Z M + (1 # 2))).
-    + apply ctrunc_mono. lra.
-    + assert (H0 : 0 <= inject_Z M) by (change 0 with (inject_Z 0); rewrite <- Zle_Qle; exact HM).
-      rewrite ctrunc_nonneg by lra. rewrite (floor_unique (inject_Z M + (1 # 2)) M); [lia|lra|lra].
+  intro z. unfold rnear. destruct (Qltb (inject_Z z) 0).
+  - rewrite (floor_unique (- inject_Z z + (1 # 2)) (- z)); [lia| |]; rewrite inject_Z_opp; lra.
+  - apply floor_unique; lra.
+Qed.
+
+Lemma Qltb_true_lt : forall x y, Qltb x y = true -> x < y.
+Proof.
+  intros x y H. unfold Qltb in H. destruct (Qle_bool y x) eqn:E; [discriminate|].
+  apply Qnot_le_lt. intro H1. apply Qle_bool_iff in H1. congruence.
+Qed.
+
+Lemma Qltb_false_le : forall x y, Qltb x y = false -> y <= x.
+Proof.
+  intros x y H. unfold Qltb in H. apply negb_false_iff in H. apply Qle_bool_iff. exact H.
+Qed.
+
+Lemma cround_rnear : forall x, cround x = rnear x.
+Proof.
+  intro x. unfold cround, rnear. destruct (Qltb x 0) eqn:E.
+  - apply Qltb_true_lt in E. rewrite ctrunc_nonpos by lra. unfold Qceiling. f_equal.
+    apply Qfloor_comp. lra.
+  - apply Qltb_false_le in E. apply ctrunc_nonneg. lra.
+Qed.
+
+Lemma pyround_rnear : forall x, pyround x = rnear x.
+Proof.
+  intro x. unfold pyround, rnear. destruct (Qltb x 0) eqn:E.
+  - apply Qltb_true_lt in E. rewrite ctrunc_nonpos by lra. unfold Qceiling. f_equal.
+    apply Qfloor_comp. lra.
+  - apply Qltb_false_le in E. apply ctrunc_nonneg. lra.
+Qed.
+
+Lemma cround_nearest : forall x, Qabs (inject_Z (cround x) - x) <= 1 # 2.
+Proof. intro x. rewrite cround_rnear. apply rnear_nearest. Qed.
+
+(* integer bounds: the rounded value is itself within the bounds (whatever their signs) *)
+Lemma rnear_between : forall (m M : Z) x, inject_Z m <= x <= inject_Z M -> (m <= rnear x <= M)%Z.
+Proof.
+  intros m M x [H1 H2]. pose proof (rnear_nearest x) as N. apply Qabs_Qle_condition in N. destruct N as [N1 N2].
+  split.
+  - assert (L : inject_Z (m - 1) < inject_Z (rnear x)).
+    { unfold Z.sub. rewrite inject_Z_plus, inject_Z_opp. change (inject_Z 1) with 1. lra. }
+    rewrite <- Zlt_Qlt in L. lia.
+  - assert (L : inject_Z (rnear x) < inject_Z (M + 1)).
+    { rewrite inject_Z_plus. change (inject_Z 1) with 1. lra. }
+    rewrite <- Zlt_Qlt in L. lia.
 Qed.
 
 (* ------------------------------------------------------------------ *)
@@ -217,9 +251,9 @@ Lemma ds_decl_inv : forall a d evs, ds_decl a = Some (d, evs) -> dsinv d.
 Proof.
   intros a d evs H. unfold ds_decl in H.
   destruct (Qleb _ _) eqn:E1; [discriminate|].
-  destruct (_ <=? _)%Z eqn:E2; [discriminate|].
+  destruct (Qleb _ _) eqn:E2 in H; [discriminate|].
   injection H as <- _. unfold dsinv. cbn.
-  apply Qleb_false_spec in E1. apply Z.leb_gt in E2. rewrite Zlt_Qlt in E2.
+  apply Qleb_false_spec in E1. apply Qleb_false_spec in E2.
   repeat split; try lra.
 Qed.
 
@@ -227,17 +261,17 @@ Lemma servo_clamp : forall a d evs ops, ds_decl a = Some (d, evs) ->
   Forall (sdev_ok d) (fst (dsrun d ops)) /\ dsinv (dsfinal d ops) /\ same_bounds d (dsfinal d ops).
 Proof. intros a d evs ops H. apply servo_clamp_run. eapply ds_decl_inv. exact H. Qed.
 
-(* with whole-number bounds and a non-negative maximum the integers themselves are within the bounds *)
-Lemma servo_clamp_int_deg : forall d pin z (m M : Z), ds_min_a d == inject_Z m -> ds_max_a d == inject_Z M -> (0 <= M)%Z ->
+(* with whole-number bounds (of either sign) the integers themselves are within the bounds *)
+Lemma servo_clamp_int_deg : forall d pin z (m M : Z), ds_min_a d == inject_Z m -> ds_max_a d == inject_Z M ->
   sdev_ok d (SWriteDeg pin z) -> (m <= z <= M)%Z.
 Proof.
-  intros d pin z m M E1 E2 HM (a & Ha & ->). apply ctrunc_half_between; [exact HM|]. rewrite <- E1, <- E2. exact Ha.
+  intros d pin z m M E1 E2 (a & Ha & ->). rewrite cround_rnear. apply rnear_between. rewrite <- E1, <- E2. exact Ha.
 Qed.
 
-Lemma servo_clamp_int_us : forall d pin z (m M : Z), ds_min_p d == inject_Z m -> ds_max_p d == inject_Z M -> (0 <= M)%Z ->
+Lemma servo_clamp_int_us : forall d pin z (m M : Z), ds_min_p d == inject_Z m -> ds_max_p d == inject_Z M ->
   sdev_ok d (SWriteMicros pin z) -> (m <= z <= M)%Z.
 Proof.
-  intros d pin z m M E1 E2 HM (p & Hp & ->). apply ctrunc_half_between; [exact HM|]. rewrite <- E1, <- E2. exact Hp.
+  intros d pin z m M E1 E2 (p & Hp & ->). rewrite cround_rnear. apply rnear_between. rewrite <- E1, <- E2. exact Hp.
 Qed.
 
 (* ------------------------------------------------------------------ *)
@@ -258,7 +292,7 @@ Lemma servo_sim_step : forall h d o, hsinv h -> srel h d -> servo_in_range h o =
   ds_pin (fst (fst (dsstep d o))) = ds_pin d /\
   (exists x, sresult (sstep h o) = Ok x) /\
   snd (dsstep d o) = hsget_of (sresult (sstep h o)) /\
-  (servo_level_ok o = true -> snd (fst (dsstep d o)) = map (hsconv (ds_pin d) o) (sevents (sstep h o))).
+  snd (fst (dsstep d o)) = map (hsconv (ds_pin d) o) (sevents (sstep h o)).
 Proof.
   intros h d o Hh R G. pose proof (srel_hsinv_dsbounds h d Hh R) as [Da Dp].
   destruct R as (E1 & E2 & E3 & E4 & E5 & E6). destruct Hh as [Ha Hp].
@@ -283,7 +317,7 @@ Proof.
     + reflexivity.
     + eexists. reflexivity.
     + reflexivity.
-    + intro Lv. cbn in Lv. apply Qleb_spec in Lv. cbn. rewrite ctrunc_half_rnear by exact Lv. reflexivity.
+    + cbn. rewrite cround_rnear. reflexivity.
   - (* write_us *)
     apply andb_prop in G. destruct G as [G G2]. apply andb_prop in G. destruct G as [G0 G1].
     pose proof (snum_ok_qof v G0) as Q0. apply Qleb_spec in G1, G2.
@@ -301,7 +335,7 @@ Proof.
     + reflexivity.
     + eexists. reflexivity.
     + reflexivity.
-    + intro Lv. cbn in Lv. apply Qleb_spec in Lv. cbn. rewrite ctrunc_half_rnear by exact Lv. reflexivity.
+    + cbn. rewrite cround_rnear. reflexivity.
   - cbn. repeat split; try assumption; try reflexivity.
     + eexists. reflexivity.
     + f_equal. apply Qred_eq. symmetry. exact E5.
@@ -314,7 +348,7 @@ Lemma servo_sim_run : forall ops h d, hsinv h -> srel h d ->
   forallb (fun b => b) (servo_range_flags h ops) = true ->
   snd (dsrun d ops) = snd (fst (hsrun (ds_pin d) h ops)) /\
   snd (hsrun (ds_pin d) h ops) = true /\
-  (forallb servo_level_ok ops = true -> fst (dsrun d ops) = fst (fst (hsrun (ds_pin d) h ops))).
+  fst (dsrun d ops) = fst (fst (hsrun (ds_pin d) h ops)).
 Proof.
   induction ops as [|o r IH]; intros h d Hh R G.
   - cbn. repeat split.
@@ -327,16 +361,12 @@ Proof.
     subst r1. split; [|split].
     + rewrite Gt, I1. reflexivity.
     + exact I2.
-    + intro L. cbn [forallb] in L. apply andb_prop in L. destruct L as [L1 L2].
-      rewrite (Ev L1), (I3 L2). reflexivity.
+    + rewrite Ev, I3. reflexivity.
 Qed.
 
 (* ---- the declaration ---- *)
-Lemma whole_spec : forall q, whole q = true -> inject_Z (ctrunc q) == q.
-Proof. intros q H. apply Qeq_bool_iff. exact H. Qed.
-
 Lemma servo_decl_rel : forall a h, decl_ok a = true -> servo_ctor a = inl h ->
-  exists d, ds_decl a = Some (d, [SAttach (ds_pin d) (ctrunc (min_p h)) (ctrunc (max_p h)); SWriteMicros (ds_pin d) (ctrunc (min_p h))]) /\
+  exists d, ds_decl a = Some (d, [SAttach (ds_pin d) (rnear (min_p h)) (rnear (max_p h)); SWriteMicros (ds_pin d) (rnear (min_p h))]) /\
             srel h d /\ hsinv h.
 Proof.
   intros a h G C. unfold decl_ok in G. repeat (apply andb_prop in G; destruct G as [G ?]).
@@ -351,59 +381,81 @@ Proof.
   destruct (Qleb (qval maxa) (qval mina)) eqn:E1; [discriminate|].
   destruct (Qleb (qval maxp) (qval minp)) eqn:E2; [discriminate|].
   injection C as <-.
-  apply Qleb_false_spec in E1, E2.
-  pose proof (whole_spec _ H0) as W1. pose proof (whole_spec _ H) as W2.
-  assert (E3 : (ctrunc (qval maxp) <=? ctrunc (qval minp))%Z = false).
-  { apply Z.leb_gt. rewrite Zlt_Qlt. rewrite W1, W2. exact E2. }
-  rewrite E3.
-  exists (mkDS (ctrunc (qval pin)) (qval mina) (qval maxa) (inject_Z (ctrunc (qval minp))) (inject_Z (ctrunc (qval maxp)))
-            (qval mina) (inject_Z (ctrunc (qval minp)))).
+  apply Qleb_false_spec in E1, E2. cbn [min_p max_p]. rewrite !pyround_rnear.
+  exists (mkDS (ctrunc (qval pin)) (qval mina) (qval maxa) (qval minp) (qval maxp) (qval mina) (qval minp)).
   split; [reflexivity|]. split.
-  - unfold srel. cbn. repeat split; try reflexivity; symmetry; assumption.
+  - unfold srel. cbn. repeat split; reflexivity.
   - unfold hsinv. cbn. split; assumption.
 Qed.
 
 Lemma servo_device_eq_host : forall a h ops, decl_ok a = true -> servo_ctor a = inl h ->
   forallb (fun b => b) (servo_range_flags h ops) = true ->
   exists d evs, ds_decl a = Some (d, evs) /\
-    evs = [SAttach (ds_pin d) (ctrunc (min_p h)) (ctrunc (max_p h)); SWriteMicros (ds_pin d) (ctrunc (min_p h))] /\
+    evs = [SAttach (ds_pin d) (rnear (min_p h)) (rnear (max_p h)); SWriteMicros (ds_pin d) (rnear (min_p h))] /\
     snd (dsrun d ops) = snd (fst (hsrun (ds_pin d) h ops)) /\
     snd (hsrun (ds_pin d) h ops) = true /\
-    (forallb servo_level_ok ops = true -> fst (dsrun d ops) = fst (fst (hsrun (ds_pin d) h ops))).
+    fst (dsrun d ops) = fst (fst (hsrun (ds_pin d) h ops)).
 Proof.
   intros a h ops G C F. destruct (servo_decl_rel a h G C) as (d & D & R & Hh).
   exists d. eexists. split; [exact D|]. split; [reflexivity|].
   apply servo_sim_run; assumption.
 Qed.
 
-(* ---- refutations ---- *)
+(* the state the declaration leaves IS the host object's: bounds, angle and pulse equal as rationals (in particular
+   fractional pulse bounds are kept) *)
+Lemma servo_decl_state : forall a h d evs, decl_ok a = true -> servo_ctor a = inl h -> ds_decl a = Some (d, evs) -> srel h d.
+Proof.
+  intros a h d evs G C D. destruct (servo_decl_rel a h G C) as (d' & D' & R & _).
+  rewrite D in D'. injection D' as -> _. exact R.
+Qed.
+
+(* the declarations the parser accepts are exactly those the host constructor accepts *)
+Lemma servo_decl_accepts : forall a, decl_ok a = true ->
+  ((exists h, servo_ctor a = inl h) <-> (exists d evs, ds_decl a = Some (d, evs))).
+Proof.
+  intros a G. pose proof G as G'. unfold decl_ok in G. repeat (apply andb_prop in G; destruct G as [G ?]).
+  unfold servo_ctor, ds_decl.
+  set (pin := dflt servo_default_pin (a_pin a)) in *.
+  set (mina := dflt servo_default_min_angle (a_min_a a)) in *.
+  set (maxa := dflt servo_default_max_angle (a_max_a a)) in *.
+  set (minp := dflt servo_default_min_pulse (a_min_p a)) in *.
+  set (maxp := dflt servo_default_max_pulse (a_max_p a)) in *.
+  unfold py_ge, py_le.
+  rewrite (snum_ok_qof mina), (snum_ok_qof maxa), (snum_ok_qof minp), (snum_ok_qof maxp) by assumption.
+  destruct (Qleb (qval maxa) (qval mina)); [split; intros (? & E); [discriminate E|destruct E as (? & E); discriminate E]|].
+  destruct (Qleb (qval maxp) (qval minp)); [split; intros (? & E); [discriminate E|destruct E as (? & E); discriminate E]|].
+  split; intros _; repeat eexists.
+Qed.
+
+(* ---- the former refutation witnesses, now inside the theorem ---- *)
 Definition neg_args : servo_args := mkServoArgs (Some (PI 9)) (Some (PI (-90))) (Some (PI 90)) None None.
-Definition neg_ops : list sop := [SWrite (PI (-10)); SRead].
+Definition neg_ops : list sop := [SWrite (PI (-10)); SRead; SWrite (PF (-21 # 2)); SWrite (PF (-1 # 4)); SWrite (PF (-1 # 2)); SWrite (PF (-3 # 4))].
 Definition neg_host : servo := mkServo (PI 9) (-90 # 1) (90 # 1) (544 # 1) (2400 # 1) (-90 # 1) (544 # 1).
 
-Lemma servo_negative_angle_differs :
-  servo_ctor neg_args = inl neg_host /\
+Lemma servo_negative_angle_agrees :
+  decl_ok neg_args = true /\ servo_ctor neg_args = inl neg_host /\
   forallb (fun b => b) (servo_range_flags neg_host neg_ops) = true /\
   (exists d evs, ds_decl neg_args = Some (d, evs) /\
-     fst (dsrun d neg_ops) = [SWriteDeg 9 (-9)] /\
-     fst (fst (hsrun 9 neg_host neg_ops)) = [SWriteDeg 9 (-10)] /\
-     snd (dsrun d neg_ops) = [SGNone; SGFloat (-10 # 1)]).
+     fst (dsrun d neg_ops) = [SWriteDeg 9 (-10); SWriteDeg 9 (-11); SWriteDeg 9 0; SWriteDeg 9 (-1); SWriteDeg 9 (-1)] /\
+     fst (fst (hsrun 9 neg_host neg_ops)) = fst (dsrun d neg_ops) /\
+     nth 1 (snd (dsrun d neg_ops)) SGNone = SGFloat (-10 # 1)).
 Proof.
-  split; [vm_compute; reflexivity|]. split; [vm_compute; reflexivity|].
+  split; [vm_compute; reflexivity|]. split; [vm_compute; reflexivity|]. split; [vm_compute; reflexivity|].
   eexists. eexists. split; [vm_compute; reflexivity|]. vm_compute. repeat split.
 Qed.
 
 Definition frac_args : servo_args := mkServoArgs (Some (PI 9)) None None (Some (PF (1089 # 2))) None.
 Definition frac_host : servo := mkServo (PI 9) 0 (180 # 1) (1089 # 2) (2400 # 1) 0 (1089 # 2).
 
-Lemma servo_fractional_bound_differs :
-  servo_ctor frac_args = inl frac_host /\
-  (exists d evs, ds_decl frac_args = Some (d, evs) /\
-     snd (dsrun d [SReadUs]) = [SGFloat (544 # 1)] /\
-     snd (fst (hsrun 9 frac_host [SReadUs])) = [SGFloat (1089 # 2)]).
+Lemma servo_fractional_bound_agrees :
+  decl_ok frac_args = true /\ servo_ctor frac_args = inl frac_host /\
+  (exists d, ds_decl frac_args = Some (d, [SAttach 9 545 2400; SWriteMicros 9 545]) /\
+     snd (dsrun d [SReadUs; SWrite (PI 90); SReadUs]) = [SGFloat (1089 # 2); SGNone; SGFloat (5889 # 4)] /\
+     snd (fst (hsrun 9 frac_host [SReadUs; SWrite (PI 90); SReadUs])) = snd (dsrun d [SReadUs; SWrite (PI 90); SReadUs]) /\
+     fst (dsrun d [SReadUs; SWrite (PI 90); SReadUs]) = [SWriteDeg 9 90]).
 Proof.
-  split; [vm_compute; reflexivity|].
-  eexists. eexists. split; [vm_compute; reflexivity|]. vm_compute. split; reflexivity.
+  split; [vm_compute; reflexivity|]. split; [vm_compute; reflexivity|].
+  eexists. split; [vm_compute; reflexivity|]. vm_compute. repeat split.
 Qed.
 
 (* ---- non-vacuity ---- *)
@@ -415,6 +467,5 @@ Definition demo_sops : list sop :=
 Lemma servo_demo_agrees :
   decl_ok demo_args = true /\ servo_ctor demo_args = inl demo_host /\
   forallb (fun b => b) (servo_range_flags demo_host demo_sops) = true /\
-  forallb servo_level_ok demo_sops = true /\
   fst (fst (hsrun 10 demo_host demo_sops)) = [SWriteDeg 10 91; SWriteMicros 10 1450; SWriteDeg 10 1; SWriteDeg 10 0].
 Proof. vm_compute. repeat split. Qed.
